@@ -68,10 +68,10 @@ def carry_chain(a, b, sub=False):
 
 
 @st.composite
-def binop_cases(draw, fld):
+def binop_cases(draw, fld, force_op=None):
     f = FIELDS[fld]
     bits, p, R = f["bits"], f["p"], f["R"]
-    op = draw(st.sampled_from(("add", "sub", "mul", "sqr", "dbl", "neg", "add", "sub", "mul")))
+    op = force_op or draw(st.sampled_from(("add", "sub", "mul", "sqr", "dbl", "neg", "add", "sub", "mul")))
     mode = draw(st.sampled_from(("pair", "target", "target")))
     ta, a = draw(gens.canon(bits, p))
     tb, b = draw(gens.canon(bits, p))
